@@ -11,10 +11,11 @@ OBLIGATIONS = ["NiftyVerif.C27." + t for t in (
     "loop_balanced", "loop_iterations", "precheckB_iff_validB", "valid_accepted", "invalid_rejected_kind",
     "rejected_only_invalid", "rng_stack_balanced", "asFound_dry_run_unbalanced", "asFound_terminate_unbalanced",
     "asFound_sanity_false_unbound", "asFound_stale_output_directory")]
-RULE = ("case = one value per option group (17 groups: output directory, sanity checks, save strategy, plotting, constants, "
+RULE = ("case = one value per option group (18 groups: output directory, sanity checks, save strategy, plotting, constants, "
         "point estimates, n_samples/controller, transitions, inspect callback, terminate callback, fresh stochasticity, dry run, "
-        "return_final_position, export_operator_outputs, earlier call with an output directory, resume, initial index), taken "
-        "from a greedy pairwise (thorough: 3-wise on the first 8 groups) covering array incl. invalid values, a pairwise array over "
+        "return_final_position, export_operator_outputs, earlier call with an output directory, resume, initial index, "
+        "continuation of an earlier call into the same directory), n_samples and controller also per iteration; taken "
+        "from a greedy pairwise (thorough: plus a 3-wise) covering array incl. invalid values, a pairwise array over "
         "valid values only and single-fault rows (each invalid value with everything else valid); each case is one "
         "real call of optimize_kl on a tiny two-key model; non-trivial = any non-default value; distinct by case")
 TRUSTED_BASE = [
@@ -27,7 +28,8 @@ ASSUMPTIONS = [
     "'runs to completion on a valid model' is established for the tiny model of the tie only; the theorems cover the option logic",
     "type errors / a missing sampling controller are only generated together with sanity_checks=True (without the checks "
     "such configurations are not valid, merely unchecked)",
-    "initial_index > 0 without resume, MPI communicators and n_samples varying per iteration are outside the covering array",
+    "MPI communicators are outside the covering array; initial_index > 0 is covered in its documented use (continuation of an "
+    "earlier call into the same output directory); with a directory no earlier call wrote into it raises (known finding)",
 ]
 
 GROUPS = [
@@ -37,7 +39,7 @@ GROUPS = [
     ("plots", [False, True]),
     ("constants", ["empty", "xi2", "callable"]),
     ("point_estimates", ["empty", "xi2"]),
-    ("nsamp", ["one", "zero", "two", "one_noctrl", "float"]),
+    ("nsamp", ["one", "zero", "two", "vi_then_map", "map_then_vi", "callable_const", "one_noctrl", "float"]),
     ("transitions", ["none", "callable", "arity2"]),
     ("inspect", ["none", "one", "two", "three"]),
     ("terminate", ["none", "never", "at0", "arity0"]),
@@ -47,13 +49,17 @@ GROUPS = [
     ("export", ["empty", "sig", "pickle", "list"]),
     ("prev", [False, True]),
     ("resume", [False, True]),
-    ("initial_index", ["zero", "total", "float"]),
+    ("initial_index", ["zero", "one", "total", "float"]),
+    ("cont", [False, True]),       # initial_index = 1: an earlier call (total = 1) wrote into the SAME output directory
 ]
+NS = {"one": [1, 1], "zero": [0, 0], "two": [2, 2], "vi_then_map": [1, 0], "map_then_vi": [0, 2], "callable_const": [1, 1],
+      "one_noctrl": [1, 1], "float": [1, 1]}
+NOCTRL = {"zero": [True, True], "vi_then_map": [False, True], "map_then_vi": [True, False], "one_noctrl": [True, True]}
 DEFAULT = {k: v[0] for k, v in GROUPS}
 TOTAL = 2
 
 
-def covering(rng, groups, strength=2, extra=None):
+def covering(rng, groups, strength=2, extra=None, tries=12):
     """greedy covering array: every `strength`-tuple of (group, value) occurs in some row"""
     names = [g for g, _ in groups]
     vals = dict(groups)
@@ -65,7 +71,7 @@ def covering(rng, groups, strength=2, extra=None):
     while todo:
         best, bestc = None, -1
         seed = next(iter(todo))
-        for _ in range(12):
+        for _ in range(tries):
             row = {g: rng.choice(vals[g]) for g in names}
             row.update(dict(seed))
             c = sum(1 for t in itertools.combinations(sorted(row.items(), key=lambda kv: names.index(kv[0])), strength)
@@ -84,15 +90,14 @@ def to_config(case, version):
     ns = case["nsamp"]
     return dict(
         op="accepts", version=version, total=TOTAL,
-        initialIndex={"zero": 0, "total": TOTAL, "float": 0}[case["initial_index"]],
+        initialIndex={"zero": 0, "one": 1, "total": TOTAL, "float": 0}[case["initial_index"]],
         initialIndexIsInt=case["initial_index"] != "float",
         exportIsDict=case["export"] != "list", exportHasPickle=case["export"] == "pickle",
         strategyValid=case["strategy"] != "bogus", outDir=case["outdir"] == "dir", resume=bool(case["resume"]),
         transitionsArity=2 if case["transitions"] == "arity2" else 1,
         inspectArity={"none": 1, "one": 1, "two": 2, "three": 3}[case["inspect"]],
         terminateArity=0 if case["terminate"] == "arity0" else 1, targetScalar=True, sanity=bool(case["sanity"]),
-        typesOk=ns != "float", controllerNone=ns in ("zero", "one_noctrl"),
-        nSamples={"one": 1, "zero": 0, "two": 2, "one_noctrl": 1, "float": 1}[ns],
+        typesOk=ns != "float", ctrlNoneAt=NOCTRL.get(ns, [False, False]), nSamplesAt=NS[ns],
         fresh0=case["fresh"] != "false", dryRun=bool(case["dry_run"]),
         **({"terminateAt": 0} if case["terminate"] == "at0" else {}),
         returnFinal=bool(case["return_final"]), prevOutDir=bool(case["prev"]))
@@ -103,6 +108,11 @@ def admissible(case):
     if case["nsamp"] in ("one_noctrl", "float") and not case["sanity"]:
         return False
     return True
+
+
+def fresh_dir_continuation(case):
+    """initial_index > 0 with an output directory that no earlier call wrote into (known finding, not in the model)"""
+    return (case["initial_index"] == "one" and case["outdir"] == "dir" and not case["cont"] and not case["dry_run"])
 
 
 _M = {}
@@ -164,8 +174,18 @@ def _real(case, work):
         return orig(self, energy, *a, **kw)
     odir = os.path.join(work, "out") if case["outdir"] == "dir" else None
     ns = case["nsamp"]
-    n_samples = {"one": 1, "zero": 0, "two": 2, "one_noctrl": 1, "float": 1.5}[ns]
-    ic = None if ns in ("zero", "one_noctrl") else m["ic"]
+    if ns in ("vi_then_map", "map_then_vi", "callable_const"):
+        n_samples = (lambda lst: (lambda i: lst[i]))(NS[ns])
+        ic = (lambda none: (lambda i: None if none[i] else m["ic"]))(NOCTRL.get(ns, [False, False]))
+    else:
+        n_samples = {"one": 1, "zero": 0, "two": 2, "one_noctrl": 1, "float": 1.5}[ns]
+        ic = None if ns in ("zero", "one_noctrl") else m["ic"]
+    if case["initial_index"] == "one" and case["cont"] and odir is not None:
+        # documented use of initial_index: an earlier call enumerated 0 … initial_index-1 into the same directory
+        ift.random.push_sseq_from_seed(7)
+        ift.optimize_kl(m["lh"], 1, 1, m["mini"], m["ic"], output_directory=odir, plot_energy_history=False,
+                        plot_minisanity_history=False, save_strategy=case["strategy"] if case["strategy"] != "bogus" else "latest")
+        ift.random.pop_sseq()
     kw = dict(
         output_directory=odir, sanity_checks=bool(case["sanity"]), save_strategy=case["strategy"],
         plot_energy_history=bool(case["plots"]), plot_minisanity_history=bool(case["plots"]),
@@ -181,8 +201,10 @@ def _real(case, work):
         export_operator_outputs={"empty": {}, "sig": {"sig": m["sig"]}, "pickle": {"pickle": m["sig"]},
                                  "list": [m["sig"]]}[case["export"]],
         resume=bool(case["resume"]),
-        initial_index={"zero": 0, "total": TOTAL, "float": 0.0}[case["initial_index"]])
+        initial_index={"zero": 0, "one": 1, "total": TOTAL, "float": 0.0}[case["initial_index"]])
     before_prev = _tree(prev_dir)
+    marker = os.path.join(odir, "last_finished_iteration") if odir else None
+    marker_before = (os.stat(marker).st_mtime_ns, open(marker).read()) if marker and os.path.exists(marker) else None
     ift.random.push_sseq_from_seed(11)
     depth0 = len(ift.random._sseq)
     ift.NewtonCG.__call__ = counting
@@ -200,7 +222,8 @@ def _real(case, work):
         return dict(error=type(e).__name__, site=site, msg=str(e)[:120], stackDelta=delta, stale=stale)
     arity = 2 if isinstance(r, tuple) else 1
     sl = r[0] if isinstance(r, tuple) else r
-    wrote = bool(odir and os.path.exists(os.path.join(odir, "last_finished_iteration"))) or _tree(prev_dir) != before_prev
+    marker_after = (os.stat(marker).st_mtime_ns, open(marker).read()) if marker and os.path.exists(marker) else None
+    wrote = (marker_after is not None and marker_after != marker_before) or _tree(prev_dir) != before_prev
     mean_ok = True
     if isinstance(r, tuple):
         mean_ok = set(r[1].keys()) == {"xi", "xi2"} if n_it[0] else True
@@ -230,6 +253,11 @@ def _judge(case, obs, model_valid):
         why = "dry_run" if case["dry_run"] else ("terminate_callback" if case["terminate"] == "at0" else "other")
         return (f"nifty.cl.random stack depth changed by {obs['stackDelta']} across optimize_kl ({why})",
                 dict(site="cl.optimize_kl", kind="rng-stack", why=why))
+    if model_valid and "error" in obs and fresh_dir_continuation(case) and obs["error"] == "FileNotFoundError" \
+            and "_pickle_load_values" in obs.get("site", ""):
+        return ("initial_index = 1 with an output directory that no earlier call wrote into: _minisanity loads "
+                "minisanity_history of iteration 0, which does not exist (FileNotFoundError)",
+                dict(site="cl.optimize_kl", kind="initial-index-fresh-directory"))
     if model_valid and "error" in obs:
         return (f"valid configuration raised {obs['error']} at {obs.get('site')}: {obs.get('msg')}",
                 dict(site="cl.optimize_kl", kind="raises", error=obs["error"], where=obs.get("site", "")))
@@ -289,12 +317,13 @@ def run(ctx):
             cases += [{**DEFAULT, **c} for c in rec.get("cases", [])]
     rows = covering(ctx.rng, GROUPS, 2)
     if not ctx.quick:
-        rows += covering(ctx.rng, GROUPS[:8], 3)
+        rows += covering(ctx.rng, GROUPS, 3, tries=4)
         rows = [{**DEFAULT, **r} for r in rows]
     # the valid core: every pair of VALID values must also occur in a row without any invalid value (else the first
     # failing check hides everything behind it)
     valid_groups = [(g, [v for v in vs if v not in ("bogus", "one_noctrl", "float", "arity2", "three", "arity0", "false",
                                                     "pickle", "list", "total")]) for g, vs in GROUPS]
+    valid_groups = [(g, vs if g != "cont" else [True]) for g, vs in valid_groups]
     valid_groups = [(g, vs if g != "resume" else [False]) for g, vs in valid_groups]
     rows += covering(ctx.rng, valid_groups, 2)
     # single-fault rows: every invalid value once with everything else valid (random valid values for the other groups), so
@@ -328,6 +357,15 @@ def run(ctx):
         ctx.stat("outcome:" + (obs["error"] if "error" in obs else "completed"))
         for k in ("outdir", "dry_run", "terminate", "nsamp", "export", "prev", "sanity"):
             ctx.stat(f"{k}={case[k]}")
+        if fresh_dir_continuation(case) and "error" not in mo and obs.get("error") == "FileNotFoundError" \
+                and "_pickle_load_values" in obs.get("site", ""):
+            ctx.case(case, nontrivial)
+            ctx.stat("known:initial-index-fresh-directory")
+            ctx.counterexample({k: v for k, v in case.items() if v != DEFAULT[k]},
+                               "initial_index = 1 with an output directory that no earlier call wrote into: _minisanity loads "
+                               "minisanity_history of iteration 0, which does not exist (FileNotFoundError)",
+                               dict(site="cl.optimize_kl", kind="initial-index-fresh-directory"))
+            continue
         ok = ctx.compare(case, _canon_real(obs), _canon_model(mo),
                          note="outcome of the real call vs model of the repaired driver"
                               + (" — the real outcome equals the model of the driver AS FOUND"
